@@ -483,11 +483,19 @@ func (x *c07Ctx) modelAuthorised(tx *pb.Transaction, initAks []int) bool {
 	} else {
 		ver[tx.Initiator] = true
 	}
+	for _, a := range tx.AuthRequire {
+		ver[c07Last(a)] = true
+	}
+	return x.authorisedBy(tx, ver)
+}
+
+// authorisedBy: given the verified addresses, is every spent output owned by one of them, by the
+// scenario's account whose rule the listed "<account>/<member>" signers satisfy, or contract-spent?
+func (x *c07Ctx) authorisedBy(tx *pb.Transaction, ver map[string]bool) bool {
 	members := map[int]bool{}
 	for _, a := range tx.AuthRequire {
 		p := strings.Split(a, "/")
-		ver[p[len(p)-1]] = true
-		if len(p) == 2 && p[0] == x.acct && x.acct != "" {
+		if len(p) == 2 && p[0] == x.acct && x.acct != "" && ver[p[1]] {
 			if k := hx.KeyOf(p[1]); k != nil {
 				members[k.Idx] = true
 			}
@@ -508,6 +516,51 @@ func (x *c07Ctx) modelAuthorised(tx *pb.Transaction, initAks []int) bool {
 		return false
 	}
 	return true
+}
+
+// c07SlotState: what a signature slot holds - the stated public key and the key (if any) whose
+// genuine signature over the transaction's digest it carries.
+type c07SlotState struct{ pub, sig *hx.Key }
+
+// modelSlots: reference model for re-arranged signature slots: the initiator (an address: slot 0
+// states its key and carries its signature; an account: every slot is a genuine signature and the
+// signing members satisfy the rule), then every listed signer not verified before, then the inputs.
+func (x *c07Ctx) modelSlots(m *pb.Transaction, init, auth []c07SlotState) bool {
+	if len(init) < 1 || len(auth) != len(m.AuthRequire) {
+		return false
+	}
+	ver := map[string]bool{}
+	if c07IsAcctName(m.Initiator) {
+		ks := map[int]bool{}
+		for _, s := range init {
+			if s.pub == nil || s.sig != s.pub {
+				return false
+			}
+			ver[s.pub.Address] = true
+			ks[s.pub.Idx] = true
+		}
+		if x.acct == "" || m.Initiator != x.acct || !x.b.Acct.satisfied(ks) {
+			return false
+		}
+	} else {
+		s := init[0]
+		if s.pub == nil || s.pub.Address != m.Initiator || s.sig != s.pub {
+			return false
+		}
+		ver[m.Initiator] = true
+	}
+	for j, ar := range m.AuthRequire {
+		a := c07Last(ar)
+		if ver[a] {
+			continue
+		}
+		s := auth[j]
+		if s.pub == nil || s.pub.Address != a || s.sig != s.pub {
+			return false
+		}
+		ver[a] = true
+	}
+	return x.authorisedBy(m, ver)
 }
 
 // ---------------------------------------------------------------------------------------------
@@ -1008,10 +1061,6 @@ func c07Redundant(tx *pb.Transaction, j int) bool {
 	return seen[c07Last(tx.AuthRequire[j])]
 }
 
-func (x *c07Ctx) slotRedundant(s c07Slot) bool {
-	return s.list == "auth_require_signs" && c07Redundant(x.T, s.i)
-}
-
 // outsider: first ring key that signs nothing in T.
 func (x *c07Ctx) outsider() *hx.Key {
 	for i := 0; i < hx.RingSize; i++ {
@@ -1052,7 +1101,7 @@ func (x *c07Ctx) specialMuts() []c07Mut {
 	var out []c07Mut
 	T := x.T
 	if x.b.Form == "xsign" {
-		for _, k := range []string{"corrupt", "dropkey", "swapkeys", "replay", "partial", "otherkey", "remove"} {
+		for _, k := range []string{"corrupt", "badpoint", "dropkey", "swapkeys", "replay", "partial", "otherkey", "remove"} {
 			out = append(out, c07Mut{Class: "xsig", Kind: k})
 		}
 	} else {
@@ -1143,52 +1192,67 @@ func (x *c07Ctx) applySpecial(mut c07Mut) c07Special {
 		}
 		s := slots[mut.Arg]
 		sp := c07SlotPtr(m, s)
-		red := x.slotRedundant(s)
+		var init, auth []c07SlotState
+		for _, si := range m.InitiatorSigns {
+			k := c07KeyOfPub(si.PublicKey)
+			init = append(init, c07SlotState{k, k})
+		}
+		for _, si := range m.AuthRequireSigns {
+			k := c07KeyOfPub(si.PublicKey)
+			auth = append(auth, c07SlotState{k, k})
+		}
+		state := func(t c07Slot) *c07SlotState {
+			if t.list == "initiator_signs" {
+				return &init[t.i]
+			}
+			return &auth[t.i]
+		}
+		st := state(s)
 		switch mut.Kind {
 		case "corrupt":
 			(*sp).Sign[len((*sp).Sign)-1] ^= 1
-			res.mustReject = !red
+			st.sig = nil
 		case "empty":
 			(*sp).Sign = nil
-			res.mustReject = !red
+			st.sig = nil
 		case "otherkey":
 			(*sp).Sign = hx.DetSign(other.Priv, x.digest)
-			res.mustReject = !red
+			st.sig = other
 		case "otherkeypub":
 			(*sp).Sign = hx.DetSign(other.Priv, x.digest)
 			(*sp).PublicKey = other.PubJSON
-			res.mustReject = !red
+			st.sig, st.pub = other, other
 		case "replay":
 			(*sp).Sign = append([]byte{}, (*c07SlotPtr(x.T2, s)).Sign...)
-			res.mustReject = !red
+			st.sig = nil
 		case "dropslot":
 			if s.list == "initiator_signs" {
 				m.InitiatorSigns = append(m.InitiatorSigns[:s.i:s.i], m.InitiatorSigns[s.i+1:]...)
-				if x.b.Form == "acctinit" {
-					var rest []int
-					for i, k := range x.b.InitAks {
-						if i != s.i {
-							rest = append(rest, k)
-						}
-					}
-					// the remaining initiator signatures are genuine: rejection is demanded only
-					// if they no longer satisfy the account's rule / cover the inputs
-					res.mustReject = len(rest) == 0 || !x.modelAuthorised(m, rest)
-				}
+				init = append(init[:s.i:s.i], init[s.i+1:]...)
 			} else {
 				m.AuthRequireSigns = append(m.AuthRequireSigns[:s.i:s.i], m.AuthRequireSigns[s.i+1:]...)
+				auth = append(auth[:s.i:s.i], auth[s.i+1:]...)
 			}
 		case "swapsig", "swapinfo":
 			s2 := slots[mut.Arg2]
 			sp2 := c07SlotPtr(m, s2)
+			st2 := state(s2)
 			if mut.Kind == "swapinfo" {
 				*sp, *sp2 = *sp2, *sp
+				*st, *st2 = *st2, *st
 			} else {
 				(*sp).Sign, (*sp2).Sign = (*sp2).Sign, (*sp).Sign
+				st.sig, st2.sig = st2.sig, st.sig
 			}
-			res.mustReject = !(red && x.slotRedundant(s2))
 		default:
 			res.skip = "unknown kind"
+			return res
+		}
+		// rejection is demanded exactly when, by the statement, the initiator or a listed signer
+		// that is not vouched for otherwise lacks a genuine signature under its own key
+		res.mustReject = !x.modelSlots(m, init, auth)
+		if !res.mustReject {
+			res.note = "still-signed-by-all"
 		}
 	case "xsig":
 		if m.XuperSign == nil {
@@ -1197,14 +1261,18 @@ func (x *c07Ctx) applySpecial(mut c07Mut) c07Special {
 		}
 		who := c07DefWho(nil)
 		switch mut.Kind {
-		case "corrupt":
+		case "corrupt", "badpoint":
 			var xs c07XuperSigJSON
 			var ms struct{ S, R []byte }
 			if json.Unmarshal(m.XuperSign.Signature, &xs) != nil || json.Unmarshal(xs.SigContent, &ms) != nil {
 				res.skip = "unparsable base signature"
 				return res
 			}
-			ms.S = new(big.Int).Add(new(big.Int).SetBytes(ms.S), big.NewInt(1)).Bytes()
+			if mut.Kind == "badpoint" {
+				ms.R[len(ms.R)-1] ^= 1 // no longer a point of the curve
+			} else {
+				ms.S = new(big.Int).Add(new(big.Int).SetBytes(ms.S), big.NewInt(1)).Bytes()
+			}
 			xs.SigContent, _ = json.Marshal(ms)
 			m.XuperSign.Signature, _ = json.Marshal(xs)
 		case "dropkey":
@@ -1303,6 +1371,7 @@ func (x *c07Ctx) applySpecial(mut c07Mut) c07Special {
 		case "initak-outsider":
 			c07PlainSign(m, [][2]*hx.Key{{v, v}}, c07DefWho(nil))
 			res.staleAlso = false
+			res.mustReject = !x.modelAuthorised(m, []int{v.Idx})
 		case "initak-del-resign":
 			var rest []int
 			var ks [][2]*hx.Key
@@ -1521,6 +1590,9 @@ type c07Res struct {
 
 // c07Classify maps a mutation to the root cause it is known to trigger (narrow: mutation kind only).
 func c07Classify(mut c07Mut) string {
+	if mut.Class == "xsig" && mut.Kind == "badpoint" {
+		return c07FindXsPanic
+	}
 	if mut.Class == "forge" {
 		switch mut.Kind {
 		case "xs-ecdsa", "xs-der":
@@ -1530,6 +1602,22 @@ func c07Classify(mut c07Mut) string {
 		}
 	}
 	return ""
+}
+
+func c07Short(s string) string {
+	if len(s) > 48 {
+		s = s[:48]
+	}
+	return s
+}
+
+func c07StripIdx(path string) string {
+	var out []string
+	for _, seg := range strings.Split(path, ".") {
+		n, _, _ := c07ParseSeg(seg)
+		out = append(out, n)
+	}
+	return strings.Join(out, ".")
 }
 
 func c07TopField(mut c07Mut) string {
@@ -1558,7 +1646,7 @@ type c07Registry struct {
 	raw map[[32]byte][]byte
 }
 
-func newC07Registry() *c07Registry {
+func c07NewRegistry() *c07Registry {
 	return &c07Registry{m: map[[32]byte][32]byte{}, raw: map[[32]byte][]byte{}}
 }
 
@@ -1645,7 +1733,7 @@ func (x *c07Ctx) eval(mut c07Mut, reg *c07Registry, sampleSubmit bool) (res c07R
 		if mut.Class == "shift" && T.Version < 3 {
 			// legacy json-stream digest: multi-field collisions are outside the statement
 			if bytes.Equal(d, x.digest) {
-				res.Labels = append(res.Labels, "legacy-shift-collides")
+				res.Labels = append(res.Labels, "legacy-shift-collides:"+c07StripIdx(mut.Path))
 				res.Skip = "legacy-multi-field"
 				return res
 			}
@@ -1772,7 +1860,7 @@ func c07Run(els []c07TraceEl, fs *hx.FindingSet) error {
 	}
 	x, err := c07Prepare(base, fs)
 	if err != nil {
-		if strings.HasPrefix(err.Error(), "setup:") {
+		if strings.HasPrefix(err.Error(), "setup:") || base.Form == "xsign" {
 			return nil // not a statement of C07
 		}
 		return err
@@ -1952,7 +2040,7 @@ func c07GenBase(rt *rapid.T, nm *hx.NodeMachine) (*c07Base, error) {
 	b.Form = rapid.SampledFrom([]string{"ak", "ak", "multi", "multi", "multi", "acctinit", "acctinit", "acctin", "acctin", "xsign", "xsign"}).Draw(rt, "form")
 	version := int32(rapid.SampledFrom([]int{1, 2, 3, 3}).Draw(rt, "version"))
 	cfg := defaultGenCfg()
-	cfg.ContractPct = 50
+	cfg.ContractPct = 40
 	// warm-up: pending and confirmed transfers / contract writes, sometimes money for $verif
 	nw := rapid.IntRange(0, 4).Draw(rt, "warm")
 	for i := 0; i < nw; i++ {
@@ -2044,7 +2132,7 @@ func c07GenBase(rt *rapid.T, nm *hx.NodeMachine) (*c07Base, error) {
 	}
 	if len(spec.Prog) > 0 {
 		if cu := s.UtxosOf(hx.VerifContract); len(cu) == 1 && cu[0].Frozen == 0 && rapid.Bool().Draw(rt, "contransfer") {
-			amt := int64(rapid.IntRange(1, int(minI64c07(cu[0].Amount.Int64(), 50))).Draw(rt, "xferamt"))
+			amt := int64(rapid.IntRange(1, int(c07MinI64(cu[0].Amount.Int64(), 50))).Draw(rt, "xferamt"))
 			spec.Prog = append(spec.Prog, hx.Ins{Op: "transfer", To: hx.Ring[rapid.IntRange(0, 5).Draw(rt, "xferto")].Address, Amt: amt})
 		}
 	}
@@ -2130,9 +2218,186 @@ func c07GenBase(rt *rapid.T, nm *hx.NodeMachine) (*c07Base, error) {
 	return b, nil
 }
 
-func minI64c07(a, b int64) int64 {
+func c07MinI64(a, b int64) int64 {
 	if a < b {
 		return a
 	}
 	return b
+}
+
+// ---------------------------------------------------------------------------------------------
+// the test
+
+const c07RuleText = "on a fresh real node (optionally after pending / confirmed transfers and contract writes, an account created through the real $acl contract and funded) one VALID transaction T is built per case in one of the forms {address initiator, 2-4 signers as bare address or account/address URI incl. redundant entries, account initiator, account-owned input authorised by member signatures (threshold / ak-set rule), aggregated XuperSign multi-signature} x versions 1-3 x {transfer, $verif contract call with read/write sets, contract-originated transfer, $acl.NewAccount} and must be accepted by State.VerifyTx with txid = id(content) (and by Chain.SubmitTx). Then ALL mutants are enumerated: every single-field mutation reachable by protobuf reflection over Transaction and nested messages (bytes flip/append/truncate, ints +-1, bool toggle, string change/append/truncate, repeated drop/dup/swap/append-copy, map add/del/alter/rename, unset -> non-default, clear), two-field boundary shifts (v3 length-prefix injectivity) plus a process-wide digest registry, signature mutations (corrupt, empty, drop slot, sign with other key keeping / switching the stated public key, replay from another accepted transaction, swap between signers), signer mutations (substitute / add / remove, stale and re-signed by the original signers), and forgeries in which the original signers spend an output of a key or account that never signs (plain, victim listed with forged slot, aggregated forms with partial / single-key / rogue-key signatures, input declared contract-spent, account outsider / below-threshold member set). Oracle: a mutant of a covered field has a different signing digest and is rejected with the stale and with the recomputed txid; signature carriers are covered by the id; a mutant is rejected whenever a required signer did not sign it (reference model of the authorisation clause). Non-trivial = accepted base with >= 2 signing keys or an account, mutant changes a covered field; distinct = hash of (base shape, mutation path + kind)"
+
+func TestC07(t *testing.T) {
+	c := hx.NewCollector("C07", "exploration", c07RuleText,
+		"deterministic ECDSA / multi-signature nonces (verification is always done by the real code)",
+		"a signature carrier re-encoded so that it still is a valid signature of the same key over the same digest (trailing bytes, JSON spelling) is outside the statement: only the stale txid is asserted for carrier bytes, semantic signature changes are separate mutations",
+		"multi-field collisions of the legacy v1/v2 json-stream digest are not asserted (the statement quantifies over single-field mutations)",
+		"modify_block, blockid, received_timestamp are outside the statement and not mutated")
+	defer c.Flush(t)
+	fs := hx.LoadFindings()
+	resolveSharedFindings(fs, c)
+	regressFixed(t, c, fs, "C07")
+	noExclude := os.Getenv("C07_NO_EXCLUDE") == "1"
+
+	// 0. witnesses of the known root causes decide this run's exclusions
+	wbase := func(v int32) *c07Base { return &c07Base{Form: "ak", Auto: true, Spec: hx.TxSpec{From: 0, Seq: 1, Version: v}} }
+	xsbase := &c07Base{Form: "xsign", Auto: true, Spec: hx.TxSpec{From: 0, Seq: 1, Version: 3}, Signers: []c07Signer{{Key: 1}}}
+	witnesses := []struct {
+		id string
+		tr []c07TraceEl
+	}{
+		{c07FindXsSingle, []c07TraceEl{{Base: wbase(3)}, {Mut: &c07Mut{Class: "forge", Kind: "xs-der"}}}},
+		{c07FindRogue, []c07TraceEl{{Base: wbase(3)}, {Mut: &c07Mut{Class: "forge", Kind: "xs-rogue"}}}},
+		{c07FindXsPanic, []c07TraceEl{{Base: xsbase}, {Mut: &c07Mut{Class: "xsig", Kind: "badpoint"}}}},
+	}
+	for _, w := range witnesses {
+		c07Exclude[w.id] = false
+		err := c07Run(w.tr, fs)
+		if witnessVerdict(t, c, fs, w.id, err, w.tr) && !noExclude {
+			c07Exclude[w.id] = true
+		}
+	}
+
+	if t.Failed() {
+		// rapid refuses to run on a failed test: the unlisted witness above is the violation to report
+		t.Logf("a witness violates and is not listed as known: exploration skipped")
+		return
+	}
+	reg := c07NewRegistry()
+	caseNo := 0
+	c.Check(t, "tx-mutations", hx.N(220, 3600), func(cs *hx.Case) {
+		rt := cs.RT()
+		nm, err := hx.NewNodeMachine(hx.DefaultOpts(), fs)
+		if err != nil {
+			rt.Fatalf("setup: %v", err)
+		}
+		defer nm.Close()
+		b, err := c07GenBase(rt, nm)
+		cs.Op(c07TraceEl{Base: b})
+		if err != nil {
+			if strings.HasPrefix(err.Error(), "setup:") {
+				cs.Label("setup-skipped")
+				cs.Label(c07Short(err.Error()))
+				return
+			}
+			cs.Failf("while preparing the node: %v", err)
+		}
+		x, err := c07Finish(nm, b)
+		if err != nil {
+			if strings.HasPrefix(err.Error(), "setup:") {
+				cs.Label("setup-skipped")
+				cs.Label(c07Short(err.Error()))
+				return
+			}
+			if b.Form == "xsign" {
+				// a tree that refuses the aggregated form altogether (one possible answer to the
+				// XuperSign findings) rejects more, which the statement allows
+				cs.Label("xsign-form-refused-by-this-tree")
+				return
+			}
+			cs.Failf("%v", err)
+		}
+		T := x.T
+		cs.Label("base-form:" + b.Form)
+		cs.Label(fmt.Sprintf("base-v%d", T.Version))
+		if len(T.ContractRequests) > 0 {
+			cs.Label("base-contract:" + T.ContractRequests[0].ContractName)
+		} else {
+			cs.Label("base-transfer")
+		}
+		if len(c07ContractInputs(T)) > 0 {
+			cs.Label("base-contract-spent-input")
+		}
+		if T.HDInfo != nil {
+			cs.Label("base-hdinfo")
+		}
+		for j := range T.AuthRequire {
+			if c07Redundant(T, j) {
+				cs.Label("base-redundant-auth-entry")
+			}
+			if strings.Contains(T.AuthRequire[j], "/") {
+				cs.Label("base-uri-auth-entry")
+			}
+		}
+		if b.Acct != nil {
+			cs.Label("acct-rule:" + b.Acct.Rule)
+		}
+		if old := reg.note(T); old != nil {
+			o := &pb.Transaction{}
+			proto.Unmarshal(old, o)
+			if err := c07CollideCheck(o, T); err != nil {
+				nb, _ := proto.Marshal(T)
+				cs.Trace = nil
+				cs.Op(c07TraceEl{Collide: []string{hex.EncodeToString(old), hex.EncodeToString(nb)}})
+				cs.Failf("%v", err)
+			}
+		}
+		shape := x.shape()
+		multi := x.multiOrAcct()
+		if multi {
+			cs.Nontrivial()
+		}
+		muts := x.allMuts()
+		for i, mut := range muts {
+			if id := c07Classify(mut); id != "" && c07Exclude[id] {
+				cs.Exclude(id)
+				continue
+			}
+			res := x.eval(mut, reg, i%7 == 3)
+			if res.Skip != "" {
+				c.Label("skipped:" + strings.SplitN(res.Skip, ":", 2)[0])
+				for _, l := range res.Labels {
+					if strings.HasPrefix(l, "legacy-") {
+						c.Label(l)
+					}
+				}
+				continue
+			}
+			c.Count([]string{shape, mut.Class, mut.Path, mut.Kind, fmt.Sprint(mut.Arg, mut.Arg2)}, multi && res.Cov, res.Labels...)
+			if res.Err != nil {
+				m := mut
+				m.Txid = res.Txid
+				if strings.HasPrefix(res.Txid, "collide:") {
+					cur, _ := c07ApplyWalk(T, mut)
+					nb, _ := proto.Marshal(cur)
+					cs.Trace = nil
+					cs.Op(c07TraceEl{Collide: []string{strings.TrimPrefix(res.Txid, "collide:"), hex.EncodeToString(nb)}})
+				} else {
+					cs.Op(c07TraceEl{Mut: &m})
+				}
+				cs.Failf("%v", res.Err)
+			}
+		}
+		// replay self-check (sampled): the descriptor alone rebuilds the same transaction
+		caseNo++
+		if caseNo%8 == 0 {
+			raw, _ := json.Marshal(b)
+			b2 := &c07Base{}
+			json.Unmarshal(raw, b2)
+			if y, err := c07Prepare(b2, fs); err != nil {
+				cs.Label("replay-selfcheck-FAILED")
+			} else {
+				if bytes.Equal(y.T.Txid, T.Txid) {
+					cs.Label("replay-selfcheck-ok")
+				} else {
+					cs.Label("replay-selfcheck-MISMATCH")
+				}
+				y.Close()
+			}
+		}
+		// the untouched base is admitted through the real entry point
+		if len(T.TxInputs) > 0 {
+			if err := x.submit(T); err != nil {
+				if strings.Contains(err.Error(), "verify") || strings.Contains(err.Error(), "PANIC") {
+					cs.Failf("Chain.SubmitTx refuses the base transaction that VerifyTx accepts: %v", err)
+				}
+				cs.Label("submit-base-refused-later")
+			} else {
+				cs.Label("submit-base-admitted")
+			}
+		}
+	})
 }
